@@ -88,7 +88,7 @@ def outcome(kind, ret):
     return kind.lower()
 
 
-FULL = re.compile(r'^(debug::(DebugSymbols::insert|remove_excess_whitespace|CallTracker::(track_call|with_file|get_cmr|next_id_cmr)|TrackedCall::map_value)(::\{closure#\d+\})*|<A as parse::ParseFromStr>::parse_from_str|TemplateProgram::new|TemplateProgram::instantiate|CompiledProgram::new|<value::Value as std::fmt::Display>::fmt(::\{closure#\d+\})*|<parse::ExprTree<\'_> as std::fmt::Display>::fmt|types::TypeInner::<A>::display|<pattern::Pattern as std::fmt::Display>::fmt|error::Span::to_slice|<error::RichError as std::fmt::Display>::fmt|<witness::(WitnessValues|Arguments) as std::fmt::Display>::fmt|<witness::(WitnessValues|Arguments) as parse::ParseFromStr>::parse_from_str(::\{closure#\d+\})*|value::Value::parse_from_str|witness::<impl parse::ParseFromStr for types::ResolvedType>::parse_from_str)$')
+FULL = re.compile(r'^(<types::StructuralType as types::TypeConstructible>::\w+(::\{closure#\d+\})*|<value::StructuralValue as value::ValueConstructible>::\w+(::\{closure#\d+\})*|<value::Value as value::ValueConstructible>::\w+(::\{closure#\d+\})*|<types::ResolvedType as types::TypeConstructible>::\w+|value::destruct::\w+(::\{closure#\d+\})*|<value::StructuralValue as std::convert::From<(bool|value::UIntValue)>>::from|<types::StructuralType as std::convert::From<types::UIntType>>::from|array::\w+::<.*>::(fold|unfold|from_slice|is_complete)|<array::\w+<.*> as miniscript::iter::TreeLike>::as_node|debug::(DebugSymbols::insert|remove_excess_whitespace|CallTracker::(track_call|with_file|get_cmr|next_id_cmr)|TrackedCall::map_value)(::\{closure#\d+\})*|<A as parse::ParseFromStr>::parse_from_str|TemplateProgram::new|TemplateProgram::instantiate|CompiledProgram::new|<value::Value as std::fmt::Display>::fmt(::\{closure#\d+\})*|<parse::ExprTree<\'_> as std::fmt::Display>::fmt|types::TypeInner::<A>::display|<pattern::Pattern as std::fmt::Display>::fmt|error::Span::to_slice|<error::RichError as std::fmt::Display>::fmt|<witness::(WitnessValues|Arguments) as std::fmt::Display>::fmt|<witness::(WitnessValues|Arguments) as parse::ParseFromStr>::parse_from_str(::\{closure#\d+\})*|value::Value::parse_from_str|witness::<impl parse::ParseFromStr for types::ResolvedType>::parse_from_str)$')
 
 
 def decision_table(ctx, fn, max_visits=1, full=None):
@@ -121,7 +121,13 @@ def decision_table(ctx, fn, max_visits=1, full=None):
             if len(val) > 360:
                 import hashlib
                 val = val[:300] + '…#' + hashlib.sha1(val.encode()).hexdigest()[:10]
-        row = {'conds': conds, 'checks': checks, 'effects': effects, 'out': out, 'value': val}
+        writes = []
+        for key, v in p.env.items():
+            if isinstance(key, tuple) and isinstance(key[0], int) and 1 <= key[0] <= fn.argc:
+                fields = [q.split(':', 1)[1] for q in key[1] if q.startswith('.') and ':' in q]
+                if fields:
+                    writes.append('%s.%s = %s' % (fn.names.get(key[0], 'arg%d' % key[0]), '.'.join(fields), S(v)[:80]))
+        row = {'conds': conds, 'checks': checks, 'effects': effects + sorted(writes), 'out': out, 'value': val}
         if full:
             tr = []
             for e in p.events:
@@ -157,7 +163,7 @@ def row_key(r, fields=ALL_FIELDS):
     return json.dumps([r.get(f, {} if f == 'state' else ([] if f in ('conds', 'checks', 'effects', 'trace') else '')) for f in ALL_FIELDS if f in fields] + [[f for f in ALL_FIELDS if f in fields]], ensure_ascii=False, sort_keys=True)
 
 
-EXTRA = re.compile(r'^(value::UIntValue::parse_decimal|value::Value::(from_const_expr|is_of_type|parse_from_str)|types::AliasedType::(resolve|resolve_builtin)(::\{closure#\d+\})?|types::BuiltinAlias::resolve|types::UIntType::(from_bit_width|bit_width|byte_width)|num::(NonZero)?Pow2Usize::new|<num::U256 as std::str::FromStr>::from_str|TemplateProgram::(new|instantiate)|CompiledProgram::new)$')
+EXTRA = re.compile(r'^(value::UIntValue::parse_decimal|value::Value::(from_const_expr|is_of_type|parse_from_str)|types::AliasedType::(resolve|resolve_builtin)(::\{closure#\d+\})?|types::BuiltinAlias::resolve|types::UIntType::(from_bit_width|bit_width|byte_width)|num::(NonZero)?Pow2Usize::new|<num::U256 as std::str::FromStr>::from_str|TemplateProgram::(new|instantiate)|CompiledProgram::new|<error::Span as std::convert::From<.*>>::from|<value::UIntValue as std::convert::TryFrom<&\[u8\]>>::try_from|ast::Scope::(get_variable|get_function|is_topmost)(::\{closure#\d+\})?)$')
 
 
 def guard_functions(fx):
